@@ -151,7 +151,9 @@ CHECKS["C12"] = dict(
          "== record for all leaf values.",
     design_ref="DESIGN.md §4 C12",
     note="Trusted: as C01 plus reference_record (written from the property and reflection.fcp's field names). Bound: 4 "
-         "templates x string-length patterns; extension-field values stay concrete (they are rendered by str()).",
+         "templates x string-length patterns; extension-field values stay concrete (they are rendered by str()). One "
+         "concrete history obligation per template with services: reflection(), fcp_cpp.rpc.generate_rpc, reflection() on one "
+         "object must list what the tree holds.",
     technique="symbolic execution of the real reflection + codec on trees with symbolic leaves + SMT validity",
 )
 
